@@ -1,6 +1,6 @@
 CONSTANTS
   Dev = {}
-  CatN = 24
+  CatN = 20
   RouteN = 3
   MaxDepth = 4
 INIT Init
